@@ -190,6 +190,8 @@ FUNCS = {
     'arrayLength': "function arrayLength(a):\n    return 99\nendfunction\n",
     'va': "function va(a, rest...):\n    arrayPush(rest, a)\n    return arrayLength(rest)\nendfunction\n",
     'mp': "function mp(x, y):\n    return arrayNew(x, y)\nendfunction\n",
+    'vb': "function vb(vals...):\n    arrayPush(vals, 9)\n    return arrayLength(vals)\nendfunction\n",
+    'lc': "function lc(x, y, zz):\n    return arrayNew(x && y && zz, x || y || zz, (x && y) && zz, x + '' + y + '' + zz)\nendfunction\n",
 }
 
 
@@ -213,6 +215,17 @@ def ref_call(state, name, args):
         if 'arrayLength' in state['f']:
             return 99, {}                     # the script function of that name replaced the library function
         return len(args[1:]) + 1, {}          # a fresh rest array on every call
+    if name == 'vb':
+        if 'arrayLength' in state['f']:
+            return 99, {}
+        return len(args) + 1, {}              # a fresh array on every call, however the function is reached
+    if name == 'lc':
+        x = args[0] if args else None
+        y = args[1] if len(args) > 1 else None
+        z = args[2] if len(args) > 2 else None
+        conj = x if not rv.truthy(x) else (y if not rv.truthy(y) else z)
+        disj = x if rv.truthy(x) else (y if rv.truthy(y) else z)
+        return [conj, disj, conj, rv.string(x) + rv.string(y) + rv.string(z)], {}   # parameters, never the globals x / y
     if name == 'mp':
         return [args[0] if args else None, args[1] if len(args) > 1 else None], {}   # missing parameters are null, never the globals x / y
     raise KeyError(name)
@@ -233,10 +246,19 @@ def events():
     script('x=1', 'x = 1\n', assign(1))
     script('x=2', 'x = 2\n', assign(2))
 
+    # the four helper functions do not interact with the others: they are defined by ONE event (keeps the state space small)
+    helpers = ('va', 'mp', 'vb', 'lc')
     for fname, text in FUNCS.items():
+        if fname in helpers:
+            continue
+
         def fn(st, fname=fname):
             return None, {'g': st['g'], 'f': st['f'] | {fname}}
         script('def ' + fname, text, fn)
+
+    def def_helpers(st):
+        return None, {'g': st['g'], 'f': st['f'] | set(helpers)}
+    script('def helpers', ''.join(FUNCS[h] for h in helpers), def_helpers)
 
     def call_event(fname, argtext, argfn):
         def fn(st):
@@ -273,6 +295,27 @@ def events():
     call_script('va', '0, 5', lambda st: [0, 5])
     call_script('mp', '', lambda st: [])
     call_script('mp', '9', lambda st: [9])
+    call_script('vb', '', lambda st: [])
+    call_script('vb', '1, 2', lambda st: [1, 2])
+    call_script('lc', "1, 0, 'c'", lambda st: [1, 0, 'c'])
+    call_script('lc', "0, null, 'c'", lambda st: [0, None, 'c'])
+
+    # the variadic function reached through a partial that is itself kept in a global between calls
+    def def_pv(st):
+        if 'vb' not in st['f']:
+            g = dict(st['g'])
+            g['pv'] = None          # systemPartial(null, ...) fails: the call evaluates to null
+            return None, {'g': g, 'f': st['f']}
+        return None, {'g': st['g'], 'f': st['f'] | {'pv'}}
+    script('pv=systemPartial(vb,1)', 'pv = systemPartial(vb, 1)\n', def_pv)
+
+    def call_pv(st):
+        if 'pv' not in st['f']:
+            return ('undefined', 'pv'), st
+        g = dict(st['g'])
+        g['rr'] = 99 if 'arrayLength' in st['f'] else 2
+        return None, {'g': g, 'f': st['f']}
+    script('rr=pv()', 'rr = pv()\n', call_pv)
 
     def read(var):
         def fn(st):
@@ -326,14 +369,17 @@ def user_view(glob):
     for k, v in glob.items():
         if k in SCRIPT_FUNCTIONS and v is SCRIPT_FUNCTIONS[k]:
             continue
-        out[k] = canon(v)
+        c = canon(v)
+        if isinstance(c, tuple) and c and c[0] == 'f' and not str(c[1]).startswith('script:'):
+            c = ('f', 'callable')       # a partial or another non-script callable: only its being a function is compared
+        out[k] = c
     return out
 
 
 def ref_view(st):
     out = {k: canon(v) for k, v in st['g'].items()}
     for f in st['f']:
-        out[f] = ('f', 'script:' + f)
+        out[f] = ('f', 'callable') if f == 'pv' else ('f', 'script:' + f)
     return out
 
 
@@ -696,6 +742,66 @@ def fam_crossrun(arg):
     return acc.result()
 
 
+REUSE_FAILS = [
+    ('filter-variables-undefined-function', "dd = dataFilter(arrayNew(objectNew('a', 1)), 'missing(a)', objectNew('kk', 1))\n"),
+    ('calc-variables-undefined-function', "dd = dataCalculatedField(arrayNew(objectNew('a', 1)), 'b', 'missing(a)', objectNew('kk', 1))\n"),
+    ('join-variables-undefined-function', "dd = dataJoin(arrayNew(objectNew('a', 1)), arrayNew(objectNew('a', 1)), 'missing(a)', null, false, objectNew('kk', 1))\n"),
+    ('filter-variables-budget', "function spin(a):\n    while true:\n        a = a + 1\n    endwhile\nendfunction\ndd = dataFilter(arrayNew(objectNew('a', 1)), 'spin(a)', objectNew('kk', 1))\n"),
+    ('filter-variables-bad-include-in-function', "function inc(a):\n    include 'broken.bare'\nendfunction\ndd = dataFilter(arrayNew(objectNew('a', 1)), 'inc(a)', objectNew('kk', 1))\n"),
+    ('plain-runtime-error', "x1 = 1\nmissing()\n"),
+    ('no-failure-with-variables', "dd = dataFilter(arrayNew(objectNew('a', 1)), 'a == kk', objectNew('kk', 1))\n"),
+]
+
+
+def check_reuse(case, acc):
+    """Run 1 (possibly failing inside a data helper that was given `variables`), then run 2 with the SAME options
+    object: top-level assignments of run 2 still write the caller-supplied globals object, reads see its values."""
+    bs = load_impl()
+    name, src1 = REUSE_FAILS[case['i']]
+    glob = {'kept': 'host-value'}
+    logs = []
+    options = {'globals': glob, 'logFn': logs.append, 'maxStatements': 200,
+               'fetchFn': lambda req: 'zz = (1 +' if req['url'].endswith('broken.bare') else None}
+    acc.evals += 2
+    acc.states += 1
+    acc.transitions += 2
+    acc.traces += 1
+    c2 = dict(case, name=name)
+    first = 'ok'
+    try:
+        bs.execute_script(bs.parse_script(src1), options)
+    except (bs.BareScriptRuntimeError, bs.BareScriptParserError) as exc:
+        first = type(exc).__name__
+    except Exception as exc:  # pylint: disable=broad-exception-caught
+        acc.violation(c2, 'a documented exception or completion', (type(exc).__name__, str(exc)[:200]), 'run 1 raised a host exception')
+        return
+    if options.get('globals') is not glob:
+        acc.violation(c2, 'options[globals] is still the caller-supplied object', 'another object', 'after run 1 the options no longer refer to the caller-supplied globals object')
+        return
+    try:
+        res = bs.execute_script(bs.parse_script("x2 = 5\nsystemGlobalSet('x3', kept)\nreturn arrayNew(x2, kept, systemGlobalGet('x2'))\n"), options)
+    except Exception as exc:  # pylint: disable=broad-exception-caught
+        acc.violation(c2, 'run 2 completes', (type(exc).__name__, str(exc)[:200]), 'the second run with the same options failed')
+        return
+    if canon(res) != canon([5, 'host-value', 5]):
+        acc.violation(c2, canon([5, 'host-value', 5]), canon(res), 'run 2 reads the wrong globals')
+    if glob.get('x2') != 5 or glob.get('x3') != 'host-value' or options.get('globals') is not glob:
+        acc.violation(c2, {'x2': 5, 'x3': 'host-value'}, {'x2': canon(glob.get('x2')), 'x3': canon(glob.get('x3'))}, 'top-level assignments of run 2 did not write the caller-supplied globals object')
+    if 'kk' in glob:
+        acc.violation(c2, 'kk stays out of the globals', canon(glob.get('kk')), 'a variables entry leaked into the caller-supplied globals')
+    acc.nontrivial += 1
+    acc.outcome((name, first))
+
+
+def fam_reuse(arg):
+    acc = Acc('reuse')
+    for case in arg:
+        acc.cases += 1
+        check_reuse(case, acc)
+    acc.sample({'first_runs': [r[0] for r in REUSE_FAILS]})
+    return acc.result()
+
+
 def fam_host(arg):
     acc = Acc('host')
     for case in arg:
@@ -711,7 +817,7 @@ def families(tier):
     evs = events()
     names = [e[0] for e in evs]
     seeds = [[], [names.index('x=1')], [names.index('def gg'), names.index('x=2')], [names.index('def abs'), names.index('def arrayLength')],
-             [names.index('def setg'), names.index('rr=setg()')], [names.index("systemGlobalSet('y',3)"), names.index('def rd')]]
+             [names.index('def setg'), names.index('rr=setg()')], [names.index("systemGlobalSet('y',3)"), names.index('def rd')], [names.index('def helpers'), names.index('pv=systemPartial(vb,1)')]]
     if tier == 'thorough':
         seeds += [[i] for i in range(len(evs))]
     from bare_script.library import SCRIPT_FUNCTIONS  # pylint: disable=import-outside-toplevel,import-error
@@ -724,13 +830,14 @@ def families(tier):
         Family('convention', fam_convention, split(cc, 16), 'parameters 0..3 x "..." x arguments 0..5 x 9 call paths (+ header spellings)', expected=len(cc)),
         Family('scoping', fam_scoping, [[s] for s in seeds], f'BFS to fixpoint over {len(evs)} events from {len(seeds)} seed states (each shard a full search)', expected=len(seeds)),
         Family('histories', fam_histories, hshards, f'every event history of length <= {hlen} over the {len(evs)} events from the empty state, stepwise compared, without state merging', expected=sum(len(evs) ** k for k in range(1, hlen + 1))),
+        Family('reuse', fam_reuse, [[{'i': i} for i in range(len(REUSE_FAILS))]], 'a first run that fails inside a data helper called with variables (undefined function, statement budget, bad include) or plainly, then a second run with the SAME options object', expected=len(REUSE_FAILS)),
         Family('crossrun', fam_crossrun, [cross], 'a function value (script function, partial, nested partial, wrapper) created in one run and called in a second run with different globals: from a script, from an expression, by the host', expected=len(cross)),
         Family('host_each', fam_host_each, split(each, 8), 'the host supplies exactly one library name - every library name in turn, bound to a host function and bound to null', expected=len(each)),
         Family('host', fam_host, split(hosts, 8), 'every subset of host-supplied names {arrayLength, mathAbs, abs, x} (bound to tagged host objects, and bound to null) x 8 programs', expected=len(hosts)),
     ]
 
 
-_CHECKS = {'crossrun': check_crossrun, 'host_each': check_host_each, 'convention': check_convention, 'scoping': check_scoping, 'host': check_host, 'histories': check_history}
+_CHECKS = {'reuse': check_reuse, 'crossrun': check_crossrun, 'host_each': check_host_each, 'convention': check_convention, 'scoping': check_scoping, 'host': check_host, 'histories': check_history}
 
 
 def replay(family, case):
